@@ -270,7 +270,9 @@ class UnitRegistry:
 
     def __deepcopy__(self, memodict=None):
         lut = copy.deepcopy(self.lut)
-        return type(self)(lut=lut)
+        return type(self)(
+            lut=lut, add_default_symbols=False, unit_system=self.unit_system
+        )
 
 
 class _NonModifiableUnitRegistry(UnitRegistry):
